@@ -303,4 +303,613 @@ theorem worklistFuel_sufficient (fs : FS) (root : SrcInfo) :
   rw [foldl_imports]
   simp only [List.length_map]; omega
 
+/-! ## The package graph: edges, paths, cycles -/
+
+abbrev Edges := List (Option Nat × Option Nat)
+
+def Edge (edges : Edges) (a b : Option Nat) : Prop := (a, b) ∈ edges
+
+/-- A path with at least one edge. -/
+inductive Path (edges : Edges) : Option Nat → Option Nat → Prop
+  | single {a b} : Edge edges a b → Path edges a b
+  | cons {a b c} : Edge edges a b → Path edges b c → Path edges a c
+
+def HasCycle (edges : Edges) : Prop := ∃ n, Path edges n n
+
+/-- Reflexive closure of `Path`. -/
+def Reaches (edges : Edges) (a b : Option Nat) : Prop := a = b ∨ Path edges a b
+
+theorem Path.trans {edges : Edges} {a b c} (h1 : Path edges a b) (h2 : Path edges b c) : Path edges a c := by
+  induction h1 with
+  | single e => exact Path.cons e h2
+  | cons e _ ih => exact Path.cons e (ih h2)
+
+theorem Path.snoc {edges : Edges} {a b c} (h1 : Path edges a b) (h2 : Edge edges b c) : Path edges a c :=
+  h1.trans (Path.single h2)
+
+theorem Path.head_edge {edges : Edges} {a b} (h : Path edges a b) : ∃ c, Edge edges a c := by
+  cases h with
+  | single e => exact ⟨_, e⟩
+  | cons e _ => exact ⟨_, e⟩
+
+theorem Reaches.trans {edges : Edges} {a b c} (h1 : Reaches edges a b) (h2 : Reaches edges b c) :
+    Reaches edges a c := by
+  rcases h1 with rfl | h1
+  · exact h2
+  · rcases h2 with rfl | h2
+    · exact Or.inr h1
+    · exact Or.inr (h1.trans h2)
+
+theorem Reaches.of_edge {edges : Edges} {a b c} (h1 : Edge edges a b) (h2 : Reaches edges b c) :
+    Reaches edges a c := by
+  rcases h2 with rfl | h2
+  · exact Or.inr (Path.single h1)
+  · exact Or.inr (Path.cons h1 h2)
+
+theorem mem_succs (edges : Edges) (node t : Option Nat) :
+    t ∈ (edges.filter (·.1 == node)).map (·.2) ↔ Edge edges node t := by
+  simp only [List.mem_map, List.mem_filter, beq_iff_eq, Edge]
+  constructor
+  · rintro ⟨⟨a, b⟩, ⟨hm, ha⟩, hb⟩
+    simp only at ha hb
+    subst ha; subst hb; exact hm
+  · intro h
+    exact ⟨(node, t), ⟨h, rfl⟩, rfl⟩
+
+/-! ## dfs: a `true` answer -/
+
+theorem dfs_go_nil (edges : Edges) f stack' : dfs.go edges f stack' [] = some false := by
+  rw [dfs.go]
+
+/-- What `dfs … = some true` means without any assumption on the stack: from `node` one can get back to
+    the recursion stack, or to a node that lies on a cycle. -/
+theorem dfs_true_gen (edges : Edges) : ∀ f node stack, dfs edges f node stack = some true →
+    (∃ t ∈ node :: stack, Path edges node t) ∨ (∃ t, Path edges node t ∧ Path edges t t) := by
+  intro f
+  induction f with
+  | zero => intro node stack h; rw [dfs] at h; cases h
+  | succ f ih =>
+    intro node stack h
+    rw [dfs.eq_2] at h
+    have key : ∀ ts, (∀ t ∈ ts, Edge edges node t) → dfs.go edges f (node :: stack) ts = some true →
+        (∃ t ∈ node :: stack, Path edges node t) ∨ (∃ t, Path edges node t ∧ Path edges t t) := by
+      intro ts
+      induction ts with
+      | nil => intro _ h; rw [dfs_go_nil] at h; cases h
+      | cons t ts iht =>
+        intro hts h
+        have het : Edge edges node t := hts t List.mem_cons_self
+        rw [dfs.go.eq_2] at h
+        split at h
+        · rename_i hc
+          exact Or.inl ⟨t, List.contains_iff_mem.mp hc, Path.single het⟩
+        · split at h
+          · rename_i hd
+            rcases ih _ _ hd with ⟨u, hu, hp⟩ | ⟨u, hp, hc⟩
+            · rcases List.mem_cons.mp hu with hu | hu
+              · subst hu
+                exact Or.inr ⟨u, Path.single het, hp⟩
+              · exact Or.inl ⟨u, hu, Path.cons het hp⟩
+            · exact Or.inr ⟨u, Path.cons het hp, hc⟩
+          · exact iht (fun t' ht' => hts t' (List.mem_cons_of_mem _ ht')) h
+          · cases h
+    exact key _ (fun t ht => (mem_succs edges node t).mp ht) h
+
+/-- If the stack is a path leading to `node`, a `true` answer is a cycle. -/
+theorem dfs_true_cycle (edges : Edges) f node stack (hst : ∀ s ∈ stack, Path edges s node)
+    (h : dfs edges f node stack = some true) : HasCycle edges := by
+  rcases dfs_true_gen edges f node stack h with ⟨t, ht, hp⟩ | ⟨t, _, hc⟩
+  · rcases List.mem_cons.mp ht with ht | ht
+    · subst ht; exact ⟨_, hp⟩
+    · exact ⟨t, (hst t ht).trans hp⟩
+  · exact ⟨t, hc⟩
+
+theorem scan_true (edges : Edges) (depth : Nat) : ∀ ns visited,
+    findCycle.scan edges depth ns visited = some true → HasCycle edges := by
+  intro ns
+  induction ns with
+  | nil => intro visited h; rw [findCycle.scan] at h; cases h
+  | cons n ns ih =>
+    intro visited h
+    rw [findCycle.scan] at h
+    split at h
+    · exact ih _ h
+    · split at h
+      · rename_i hd
+        exact dfs_true_cycle edges _ n [] (fun s hs => absurd hs List.not_mem_nil) hd
+      · exact ih _ h
+      · cases h
+
+/-! ## dfs: a `false` answer -/
+
+theorem dfs_go_false (edges : Edges) f stack' : ∀ ts, dfs.go edges f stack' ts = some false →
+    ∀ t ∈ ts, t ∉ stack' ∧ dfs edges f t stack' = some false := by
+  intro ts
+  induction ts with
+  | nil => intro _ t ht; exact absurd ht List.not_mem_nil
+  | cons t ts iht =>
+    intro h
+    rw [dfs.go.eq_2] at h
+    split at h
+    · cases h
+    · rename_i hc
+      split at h
+      · cases h
+      · rename_i hd
+        intro t' ht'
+        rcases List.mem_cons.mp ht' with ht' | ht'
+        · subst ht'
+          exact ⟨fun hm => hc (List.contains_iff_mem.mpr hm), hd⟩
+        · exact iht h t' ht'
+      · cases h
+
+theorem dfs_false_step (edges : Edges) f node stack t (h : dfs edges f node stack = some false)
+    (he : Edge edges node t) : t ∉ node :: stack ∧ ∃ f', dfs edges f' t (node :: stack) = some false := by
+  cases f with
+  | zero => rw [dfs] at h; cases h
+  | succ f =>
+    rw [dfs.eq_2] at h
+    obtain ⟨h1, h2⟩ := dfs_go_false edges f _ _ h t ((mem_succs edges node t).mpr he)
+    exact ⟨h1, f, h2⟩
+
+/-- `Walk r t st`: `st` is the recursion stack of a walk from `r` that has arrived at `t`. -/
+inductive Walk (edges : Edges) (r : Option Nat) : Option Nat → List (Option Nat) → Prop
+  | root : Walk edges r r []
+  | step {n t st} : Walk edges r n st → Edge edges n t → Walk edges r t (n :: st)
+
+theorem Walk.of_reaches {edges : Edges} {r t} (h : Reaches edges r t) : ∃ st, Walk edges r t st := by
+  rcases h with rfl | h
+  · exact ⟨[], Walk.root⟩
+  · suffices hs : ∀ a b, Path edges a b → ∀ st, Walk edges r a st → ∃ st', Walk edges r b st' from
+      hs _ _ h [] Walk.root
+    intro a b hp
+    induction hp with
+    | single e => intro st hw; exact ⟨_, Walk.step hw e⟩
+    | cons e _ ih => intro st hw; exact ih _ (Walk.step hw e)
+
+theorem Walk.extend {edges : Edges} {r t u} (hp : Path edges t u) : ∀ st, Walk edges r t st →
+    ∃ st', Walk edges r u st' ∧ ∀ x ∈ t :: st, x ∈ st' := by
+  induction hp with
+  | single e => intro st hw; exact ⟨_, Walk.step hw e, fun x hx => hx⟩
+  | cons e _ ih =>
+    intro st hw
+    obtain ⟨st', hw', hsub⟩ := ih _ (Walk.step hw e)
+    exact ⟨st', hw', fun x hx => hsub x (List.mem_cons_of_mem _ hx)⟩
+
+theorem Walk.dfs_false {edges : Edges} {r f0} (h0 : dfs edges f0 r [] = some false) :
+    ∀ {t st}, Walk edges r t st → ∃ f, dfs edges f t st = some false := by
+  intro t st hw
+  induction hw with
+  | root => exact ⟨f0, h0⟩
+  | step _ e ih =>
+    obtain ⟨f, hf⟩ := ih
+    exact (dfs_false_step edges f _ _ _ hf e).2
+
+/-- No cycle can be reached from `n`. -/
+def Good (edges : Edges) (n : Option Nat) : Prop := ∀ m, Reaches edges n m → ¬ Path edges m m
+
+theorem Good.of_reaches {edges : Edges} {n m} (h : Good edges n) (hr : Reaches edges n m) : Good edges m :=
+  fun k hk => h k (hr.trans hk)
+
+/-- `dfs` from a root with an empty stack enumerates every walk from it: a `false` answer means that
+    no cycle is reachable from the root. -/
+theorem dfs_false_good (edges : Edges) f r (h : dfs edges f r [] = some false) : Good edges r := by
+  intro m hr hc
+  obtain ⟨st, hw⟩ := Walk.of_reaches hr
+  obtain ⟨st', hw', hsub⟩ := Walk.extend hc st hw
+  have hm : m ∈ st' := hsub m List.mem_cons_self
+  cases hw' with
+  | root => exact absurd hm List.not_mem_nil
+  | step hw'' e =>
+    obtain ⟨f', hf'⟩ := Walk.dfs_false h hw''
+    exact (dfs_false_step edges f' _ _ _ hf' e).1 hm
+
+/-- Everything `reach` adds to `seen` is reachable from the todo list. -/
+theorem reach_sound (edges : Edges) : ∀ fuel todo seen m, m ∈ reach edges fuel todo seen →
+    m ∈ seen ∨ ∃ n ∈ todo, Reaches edges n m := by
+  intro fuel
+  induction fuel with
+  | zero => intro todo seen m h; rw [reach] at h; exact Or.inl h
+  | succ f ih =>
+    intro todo seen m h
+    cases todo with
+    | nil => rw [reach] at h; exact Or.inl h
+    | cons n todo =>
+      rw [reach] at h
+      split at h
+      · rcases ih _ _ _ h with h | ⟨n', hn', hr⟩
+        · exact Or.inl h
+        · exact Or.inr ⟨n', List.mem_cons_of_mem _ hn', hr⟩
+      · rcases ih _ _ _ h with h | ⟨n', hn', hr⟩
+        · rcases List.mem_append.mp h with h | h
+          · exact Or.inl h
+          · simp only [List.mem_singleton] at h
+            subst h
+            exact Or.inr ⟨m, List.mem_cons_self, Or.inl rfl⟩
+        · rcases List.mem_append.mp hn' with hn' | hn'
+          · exact Or.inr ⟨n', List.mem_cons_of_mem _ hn', hr⟩
+          · exact Or.inr ⟨n, List.mem_cons_self, Reaches.of_edge ((mem_succs edges n n').mp hn') hr⟩
+
+theorem scan_false (edges : Edges) (depth : Nat) : ∀ ns visited, (∀ v ∈ visited, Good edges v) →
+    findCycle.scan edges depth ns visited = some false → ∀ n ∈ ns, Good edges n := by
+  intro ns
+  induction ns with
+  | nil => intro visited _ _ n hn; exact absurd hn List.not_mem_nil
+  | cons n ns ih =>
+    intro visited hv h
+    rw [findCycle.scan] at h
+    split at h
+    · rename_i hc
+      intro n' hn'
+      rcases List.mem_cons.mp hn' with hn' | hn'
+      · subst hn'; exact hv _ (List.contains_iff_mem.mp hc)
+      · exact ih _ hv h n' hn'
+    · split at h
+      · cases h
+      · rename_i hd
+        have hg : Good edges n := dfs_false_good edges _ n hd
+        have hv' : ∀ v ∈ reach edges (edges.length * edges.length + edges.length + 2) [n] visited,
+            Good edges v := by
+          intro v hvm
+          rcases reach_sound edges _ _ _ _ hvm with hvm | ⟨n', hn', hr⟩
+          · exact hv v hvm
+          · simp only [List.mem_singleton] at hn'
+            subst hn'
+            exact hg.of_reaches hr
+        intro n' hn'
+        rcases List.mem_cons.mp hn' with hn' | hn'
+        · subst hn'; exact hg
+        · exact ih _ hv' h n' hn'
+      · cases h
+
+/-! ## `sortNodes` keeps every node
+
+  `Array.qsort` has no lemmas in the core library and its workers (`qsort.sort`, `qpartition.loop`) are
+  private to `Init.Data.Array.QSort.Basic`; the macros below only spell their (mangled) names so that
+  their generated unfolding equations can be used. -/
+
+open Lean in
+macro "qsort_sort%" xs:term:max* : term =>
+  pure (Syntax.mkApp (mkIdent (Name.mkStr (Name.mkStr (Name.mkStr (Name.mkNum (`_private.Init.Data.Array.QSort.Basic) 0) "Array") "qsort") "sort")) xs)
+open Lean in
+macro "qpart_loop%" xs:term:max* : term =>
+  pure (Syntax.mkApp (mkIdent (Name.mkStr (Name.mkStr (Name.mkStr (Name.mkNum (`_private.Init.Data.Array.QSort.Basic) 0) "Array") "qpartition") "loop")) xs)
+open Lean in
+macro "qsort_sort_eq%" : term =>
+  pure (mkIdent (Name.mkStr (Name.mkStr (Name.mkStr (Name.mkStr (Name.mkNum (`_private.Init.Data.Array.QSort.Basic) 0) "Array") "qsort") "sort") "eq_1"))
+open Lean in
+macro "qpart_loop_eq%" : term =>
+  pure (mkIdent (Name.mkStr (Name.mkStr (Name.mkStr (Name.mkStr (Name.mkNum (`_private.Init.Data.Array.QSort.Basic) 0) "Array") "qpartition") "loop") "eq_1"))
+
+theorem qpart_loop_perm {α} (lt : α → α → Bool) {n} (lo hi : Nat) (hhi : hi < n) (pivot : α) :
+    ∀ d (as : Vector α n) (i k : Nat) (ilo : lo ≤ i) (ik : i ≤ k) (w : k ≤ hi), hi - k = d →
+      ((qpart_loop% lt lo hi hhi pivot as i k ilo ik w).2).Perm as := by
+  intro d
+  induction d with
+  | zero =>
+    intro as i k ilo ik w hd
+    rw [qpart_loop_eq%]
+    have hk : ¬ k < hi := by omega
+    rw [dif_neg hk]
+    exact Vector.swap_perm (by omega) (by omega)
+  | succ d ih =>
+    intro as i k ilo ik w hd
+    rw [qpart_loop_eq%]
+    have hk : k < hi := by omega
+    rw [dif_pos hk]
+    split
+    · exact (ih _ _ _ _ _ _ (by omega)).trans (Vector.swap_perm _ _)
+    · exact ih _ _ _ _ _ _ (by omega)
+
+theorem qpartition_perm {α} (lt : α → α → Bool) {n} (as : Vector α n) (lo hi : Nat) (w : lo ≤ hi)
+    (hlo : lo < n) (hhi : hi < n) : (Array.qpartition as lt lo hi w hlo hhi).2.Perm as := by
+  unfold Array.qpartition
+  simp only
+  refine (qpart_loop_perm lt lo hi hhi _ _ _ _ _ _ _ _ rfl).trans ?_
+  have swp : ∀ (v : Vector α n) (c : Prop) [Decidable c] (i j : Nat) (hi : i < n) (hj : j < n),
+      (if c then v.swap i j hi hj else v).Perm v := by
+    intro v c _ i j hi hj
+    split
+    · exact Vector.swap_perm _ _
+    · exact Vector.Perm.refl _
+  exact (swp _ _ _ _ _ _).trans ((swp _ _ _ _ _ _).trans (swp _ _ _ _ _ _))
+
+theorem qsort_sort_perm {α} (lt : α → α → Bool) {n} : ∀ d (as : Vector α n) (lo hi : Nat) (w : lo ≤ hi)
+    (hlo : lo < n) (hhi : hi < n), hi - lo ≤ d → (qsort_sort% lt as lo hi w hlo hhi).Perm as := by
+  intro d
+  induction d with
+  | zero =>
+    intro as lo hi w hlo hhi hd
+    rw [qsort_sort_eq%]
+    have : ¬ lo < hi := by omega
+    rw [dif_neg this]
+  | succ d ih =>
+    intro as lo hi w hlo hhi hd
+    rw [qsort_sort_eq%]
+    split
+    · have hp := qpartition_perm lt as lo hi w hlo hhi
+      split
+      rename_i mid hmid as' hq
+      rw [hq] at hp
+      simp only at hp
+      split
+      · exact hp
+      · exact ((ih _ _ _ _ _ _ (by omega)).trans (ih _ _ _ _ _ _ (by omega))).trans hp
+    · exact Vector.Perm.refl _
+
+theorem qsort_perm {α} (as : Array α) (lt : α → α → Bool) : (as.qsort lt).Perm as := by
+  unfold Array.qsort
+  split
+  · exact Array.Perm.refl _
+  · simp only
+    exact (qsort_sort_perm lt _ _ _ _ _ _ _ (Nat.le_refl _)).toArray
+
+theorem mem_sortNodes (ns : List (Option Nat)) (a : Option Nat) : a ∈ sortNodes ns ↔ a ∈ ns := by
+  unfold sortNodes
+  simp only [Array.mem_toList_iff]
+  rw [(qsort_perm _ _).mem_iff]
+  simp
+
+/-! ## The cycle search never runs out of fuel -/
+
+/-- The recursion stack is duplicate free and made of nodes of the graph, so its length is bounded by
+    the number of nodes; with `N.length + 1 ≤ fuel + stack.length` the fuel cannot reach 0. -/
+theorem dfs_ne_none (edges : Edges) (N : List (Option Nat)) (hN : ∀ a b, Edge edges a b → b ∈ N) :
+    ∀ f node stack, (node :: stack).Nodup → (∀ x ∈ node :: stack, x ∈ N) →
+      N.length + 1 ≤ f + stack.length → dfs edges f node stack ≠ none := by
+  intro f
+  induction f with
+  | zero =>
+    intro node stack hnd hsub hlen
+    have := List.Nodup.length_le_of_subset hnd (fun x hx => hsub x hx)
+    simp only [List.length_cons] at this
+    omega
+  | succ f ih =>
+    intro node stack hnd hsub hlen
+    rw [dfs.eq_2]
+    have key : ∀ ts, (∀ t ∈ ts, Edge edges node t) → dfs.go edges f (node :: stack) ts ≠ none := by
+      intro ts
+      induction ts with
+      | nil => intro _; rw [dfs_go_nil]; intro h; cases h
+      | cons t ts iht =>
+        intro hts
+        rw [dfs.go.eq_2]
+        split
+        · intro h; cases h
+        · rename_i hc
+          have hrec : dfs edges f t (node :: stack) ≠ none := by
+            apply ih
+            · exact List.nodup_cons.mpr ⟨fun hm => hc (List.contains_iff_mem.mpr hm), hnd⟩
+            · intro x hx
+              rcases List.mem_cons.mp hx with hx | hx
+              · subst hx; exact hN _ _ (hts x List.mem_cons_self)
+              · exact hsub x hx
+            · simp only [List.length_cons]; omega
+          split
+          · intro h; cases h
+          · exact iht (fun t' ht' => hts t' (List.mem_cons_of_mem _ ht'))
+          · rename_i hd; exact absurd hd hrec
+    exact key _ (fun t ht => (mem_succs edges node t).mp ht)
+
+theorem scan_ne_none (edges : Edges) (depth : Nat) (N : List (Option Nat))
+    (hN : ∀ a b, Edge edges a b → b ∈ N) (hd : N.length + 1 ≤ depth) :
+    ∀ ns visited, (∀ n ∈ ns, n ∈ N) → findCycle.scan edges depth ns visited ≠ none := by
+  intro ns
+  induction ns with
+  | nil => intro visited _; rw [findCycle.scan]; intro h; cases h
+  | cons n ns ih =>
+    intro visited hns
+    have hns' : ∀ n' ∈ ns, n' ∈ N := fun n' hn' => hns n' (List.mem_cons_of_mem _ hn')
+    rw [findCycle.scan]
+    split
+    · exact ih _ hns'
+    · have hrec : dfs edges depth n [] ≠ none := by
+        apply dfs_ne_none edges N hN
+        · simp
+        · intro x hx
+          simp only [List.mem_singleton] at hx
+          subst hx; exact hns x List.mem_cons_self
+        · simp only [List.length_nil]; omega
+      split
+      · intro h; cases h
+      · exact ih _ hns'
+      · rename_i hd'; exact absurd hd' hrec
+
+theorem findCycle_ne_none (edges : Edges) : findCycle edges ≠ none := by
+  unfold findCycle
+  simp only
+  apply scan_ne_none edges _ ((edges.map (·.1) ++ edges.map (·.2)).eraseDups)
+  · intro a b hab
+    rw [List.mem_eraseDups]
+    exact List.mem_append_right _ (List.mem_map.mpr ⟨(a, b), hab, rfl⟩)
+  · omega
+  · intro n hn
+    rw [mem_sortNodes, List.mem_eraseDups] at hn
+    rw [List.mem_eraseDups]
+    exact List.mem_append_left _ hn
+
+
+/-! ## The recorded edges are exactly the package pairs of the import statements of live files -/
+
+/-- The root or a file transitively imported by it. -/
+def Live (fs : FS) (x : Nat) : Prop := x = 0 ∨ Reachable fs x
+
+theorem Live.imports {fs : FS} {x y : Nat} {ix : SrcInfo} (hl : Live fs x) (hx : fs[x]? = some ix)
+    (hy : y ∈ ix.imports) : Reachable fs y := by
+  rcases hl with rfl | hl
+  · exact Reachable.root hx hy
+  · exact Reachable.step hl ⟨ix, hx, hy⟩
+
+/-- `a → b` is an edge of the package graph: some live file of package `a` imports an existing file of
+    package `b` (packages are `Option`: `none` is "no go_package"). -/
+def PkgEdge (fs : FS) (a b : Option Nat) : Prop :=
+  ∃ x y ix iy, Live fs x ∧ fs[x]? = some ix ∧ y ∈ ix.imports ∧ fs[y]? = some iy ∧ a = ix.pkg ∧ b = iy.pkg
+
+/-- Paths (at least one edge) in the package graph. -/
+inductive PkgPath (fs : FS) : Option Nat → Option Nat → Prop
+  | single {a b} : PkgEdge fs a b → PkgPath fs a b
+  | cons {a b c} : PkgEdge fs a b → PkgPath fs b c → PkgPath fs a c
+
+theorem PkgPath.snoc {fs : FS} {a b c} (h1 : PkgPath fs a b) (h2 : PkgEdge fs b c) : PkgPath fs a c := by
+  induction h1 with
+  | single e => exact PkgPath.cons e (PkgPath.single h2)
+  | cons e _ ih => exact PkgPath.cons e (ih h2)
+
+theorem PkgPath.head_edge {fs : FS} {a b} (h : PkgPath fs a b) : ∃ c, PkgEdge fs a c := by
+  cases h with
+  | single e => exact ⟨_, e⟩
+  | cons e _ => exact ⟨_, e⟩
+
+theorem path_iff_pkgPath {fs : FS} {edges : Edges} (h : ∀ a b, (a, b) ∈ edges ↔ PkgEdge fs a b) (a b) :
+    Path edges a b ↔ PkgPath fs a b := by
+  constructor
+  · intro hp
+    induction hp with
+    | single e => exact PkgPath.single ((h _ _).mp e)
+    | cons e _ ih => exact PkgPath.cons ((h _ _).mp e) ih
+  · intro hp
+    induction hp with
+    | single e => exact Path.single ((h _ _).mpr e)
+    | cons e _ ih => exact Path.cons ((h _ _).mpr e) ih
+
+/-- Invariant for edge soundness. -/
+structure EInv (fs : FS) (wl : List (Option Nat × Nat)) (edges : Edges) : Prop where
+  wl : ∀ e ∈ wl, ∃ x ix, Live fs x ∧ fs[x]? = some ix ∧ e.2 ∈ ix.imports ∧ e.1 = ix.pkg
+  edges : ∀ e ∈ edges, PkgEdge fs e.1 e.2
+
+theorem EInv.step {fs : FS} {src tgt rest edges info} (h : EInv fs ((src, tgt) :: rest) edges)
+    (hi : fs[tgt]? = some info) :
+    EInv fs rest (edges ++ [(src, info.pkg)]) ∧
+    EInv fs (rest ++ info.imports.map (fun t => (info.pkg, t))) (edges ++ [(src, info.pkg)]) := by
+  obtain ⟨x, ix, hl, hx, hy, hs⟩ := h.wl (src, tgt) List.mem_cons_self
+  have hed : ∀ e ∈ edges ++ [(src, info.pkg)], PkgEdge fs e.1 e.2 := by
+    intro e he
+    rcases List.mem_append.mp he with he | he
+    · exact h.edges e he
+    · simp only [List.mem_singleton] at he
+      subst he
+      exact ⟨x, tgt, ix, info, hl, hx, hy, hi, hs, rfl⟩
+  have hrest : ∀ e ∈ rest, ∃ x ix, Live fs x ∧ fs[x]? = some ix ∧ e.2 ∈ ix.imports ∧ e.1 = ix.pkg :=
+    fun e he => h.wl e (List.mem_cons_of_mem _ he)
+  refine ⟨⟨hrest, hed⟩, ⟨?_, hed⟩⟩
+  intro e he
+  rcases List.mem_append.mp he with he | he
+  · exact hrest e he
+  · obtain ⟨t, ht, rfl⟩ := List.mem_map.mp he
+    exact ⟨tgt, info, Or.inr (hl.imports hx hy), hi, ht, rfl⟩
+
+theorem edges_sound_gen (fs : FS) : ∀ fuel wl imported edges imp' edges',
+    EInv fs wl edges →
+    worklist fs fuel wl imported edges = .ok (imp', edges') →
+    ∀ e ∈ edges', PkgEdge fs e.1 e.2 := by
+  intro fuel
+  induction fuel with
+  | zero =>
+    intro wl imported edges imp' edges' hinv h
+    rw [worklist_zero] at h
+    injection h with h; injection h with h1 h2; subst h2
+    exact hinv.edges
+  | succ f ih =>
+    intro wl imported edges imp' edges' hinv h
+    cases wl with
+    | nil =>
+      rw [worklist_nil] at h
+      injection h with h; injection h with h1 h2; subst h2
+      exact hinv.edges
+    | cons e rest =>
+      obtain ⟨src, tgt⟩ := e
+      cases hi : fs[tgt]? with
+      | none => rw [worklist_cons_none _ _ _ _ _ _ _ hi] at h; cases h
+      | some info =>
+        by_cases hc : tgt ∈ imported
+        · rw [worklist_cons_seen _ _ _ _ _ _ _ _ hi hc] at h
+          exact ih _ _ _ _ _ (hinv.step hi).1 h
+        · rw [worklist_cons_new _ _ _ _ _ _ _ _ hi hc] at h
+          exact ih _ _ _ _ _ (hinv.step hi).2 h
+
+theorem EInv.init {fs : FS} {root : SrcInfo} (h0 : fs[0]? = some root) : EInv fs (rootWork root) [] := by
+  refine ⟨?_, fun e he => absurd he List.not_mem_nil⟩
+  intro e he
+  obtain ⟨t, ht, rfl⟩ := List.mem_map.mp he
+  exact ⟨0, root, Or.inl rfl, h0, ht, rfl⟩
+
+/-- Invariant for edge completeness: every import statement of the root and of the imported files is
+    still on the worklist or has its edge recorded. -/
+def ECl (fs : FS) (wl : List (Option Nat × Nat)) (imported : List Nat) (edges : Edges) : Prop :=
+  ∀ x ix, (x = 0 ∨ x ∈ imported) → fs[x]? = some ix → ∀ y ∈ ix.imports,
+    (ix.pkg, y) ∈ wl ∨ ∃ iy, fs[y]? = some iy ∧ (ix.pkg, iy.pkg) ∈ edges
+
+theorem edges_complete_gen (fs : FS) : ∀ fuel wl imported edges imp' edges',
+    wl.length + pend fs 0 imported < fuel →
+    ECl fs wl imported edges →
+    worklist fs fuel wl imported edges = .ok (imp', edges') →
+    ECl fs [] imp' edges' := by
+  intro fuel
+  induction fuel with
+  | zero => intro wl imported edges imp' edges' hf; omega
+  | succ f ih =>
+    intro wl imported edges imp' edges' hf hcl h
+    cases wl with
+    | nil =>
+      rw [worklist_nil] at h
+      injection h with h; injection h with h1 h2; subst h1; subst h2
+      exact hcl
+    | cons e rest =>
+      obtain ⟨src, tgt⟩ := e
+      cases hi : fs[tgt]? with
+      | none => rw [worklist_cons_none _ _ _ _ _ _ _ hi] at h; cases h
+      | some info =>
+        -- what happens to the entries recorded so far when (src, tgt) is popped
+        have hpop : ∀ x ix, (x = 0 ∨ x ∈ imported) → fs[x]? = some ix → ∀ y ∈ ix.imports,
+            (ix.pkg, y) ∈ rest ∨ ∃ iy, fs[y]? = some iy ∧ (ix.pkg, iy.pkg) ∈ edges ++ [(src, info.pkg)] := by
+          intro x ix hx hix y hy
+          rcases hcl x ix hx hix y hy with hw | ⟨iy, hiy, he⟩
+          · rcases List.mem_cons.mp hw with hw | hw
+            · injection hw with hw1 hw2
+              subst hw2
+              refine Or.inr ⟨info, hi, ?_⟩
+              rw [hw1]
+              exact List.mem_append_right _ (List.mem_singleton.mpr rfl)
+            · exact Or.inl hw
+          · exact Or.inr ⟨iy, hiy, List.mem_append_left _ he⟩
+        by_cases hc : tgt ∈ imported
+        · rw [worklist_cons_seen _ _ _ _ _ _ _ _ hi hc] at h
+          have hf' : rest.length + pend fs 0 imported < f := by
+            simp only [List.length_cons] at hf; omega
+          exact ih _ _ _ _ _ hf' hpop h
+        · rw [worklist_cons_new _ _ _ _ _ _ _ _ hi hc] at h
+          have hps := pend_step fs 0 imported tgt info (Nat.zero_le _) (by simpa using hi) hc
+          have hf' : (rest ++ info.imports.map (fun t => (info.pkg, t))).length
+              + pend fs 0 (imported ++ [tgt]) < f := by
+            simp only [List.length_cons] at hf
+            simp only [List.length_append, List.length_map]; omega
+          refine ih _ _ _ _ _ hf' ?_ h
+          intro x ix hx hix y hy
+          have hold : (x = 0 ∨ x ∈ imported) → (ix.pkg, y) ∈ rest ++ info.imports.map (fun t => (info.pkg, t)) ∨
+              ∃ iy, fs[y]? = some iy ∧ (ix.pkg, iy.pkg) ∈ edges ++ [(src, info.pkg)] := by
+            intro hx'
+            rcases hpop x ix hx' hix y hy with hw | hw
+            · exact Or.inl (List.mem_append_left _ hw)
+            · exact Or.inr hw
+          rcases hx with hx | hx
+          · exact hold (Or.inl hx)
+          · rcases List.mem_append.mp hx with hx | hx
+            · exact hold (Or.inr hx)
+            · simp only [List.mem_singleton] at hx
+              subst hx
+              rw [hi] at hix
+              injection hix with hix
+              subst hix
+              exact Or.inl (List.mem_append_right _ (List.mem_map.mpr ⟨y, hy, rfl⟩))
+
+theorem ECl.init (fs : FS) (root : SrcInfo) (h0 : fs[0]? = some root) : ECl fs (rootWork root) [] [] := by
+  intro x ix hx hix y hy
+  rcases hx with hx | hx
+  · subst hx
+    rw [h0] at hix
+    injection hix with hix
+    subst hix
+    exact Or.inl (List.mem_map.mpr ⟨y, hy, rfl⟩)
+  · exact absurd hx List.not_mem_nil
+
 end Bebop.Text
